@@ -73,7 +73,7 @@ for be in BACKS:
                   dict(name='helper-object', pat='handle_defer_helper < library_sm > defer_helper ( self -> m_deferred_events_queue ) ; defer_helper . do_handle_deferred (', rep='do_handle_deferred ( self ,', min=0, max=1)],
                   guards=GUARDS)), GUARD_DTOR(SM)],
         'void do_entry(fsm_t* self, event_t incomingEvent, fsm_t* fsm)', 'cascade_back.spec.h', compose='@0', file_scope=GUARD_FS,
-        also_replace_if_present=['regions_do_entry'], replay=['hist', 'exc']))
+        also_replace_if_present=['regions_do_entry'], replay=['hist', 'exc', 'defer']))
 
 DES = [REG_ENTRY, dict(name='member-call-start', pat='self -> internal_start (', rep='internal_start ( self ,', min=0, max=1),
        dict(name='member-call-process', pat='self -> process_event (', rep='process_event ( self ,', min=0, max=1),
